@@ -653,3 +653,41 @@ func (vc *VC) script(o *Obligation, wantModel bool) string {
 	}
 	return b.String()
 }
+
+// incrementalScript: all obligations of the VC in one solver session (facts are asserted once, each goal is
+// checked under push/pop). Obligation-derived facts are asserted like in the stand-alone scripts.
+func (vc *VC) incrementalScript(timeoutMs int, from, to int) string {
+	var b strings.Builder
+	b.WriteString("(set-option :print-success false)\n")
+	b.WriteString(fmt.Sprintf("(set-option :timeout %d)\n", timeoutMs))
+	b.WriteString("(set-logic ALL)\n")
+	next := 0
+	emit := func(upto int) {
+		for ; next < upto; next++ {
+			f := vc.facts[next]
+			if strings.HasPrefix(f, "\x01") {
+				k := strings.Index(f[1:], "\x01")
+				f = f[k+2:]
+			}
+			if strings.HasPrefix(f, "\x00") {
+				b.WriteString(f[1:])
+				b.WriteString("\n")
+			} else {
+				b.WriteString("(assert ")
+				b.WriteString(f)
+				b.WriteString(")\n")
+			}
+		}
+	}
+	for i, o := range vc.obls {
+		if i >= to {
+			break
+		}
+		emit(o.NFacts)
+		if i < from {
+			continue
+		}
+		b.WriteString(fmt.Sprintf("(echo \"@obl %d\")\n(push 1)\n(assert (not %s))\n(check-sat)\n(pop 1)\n", i, o.Goal))
+	}
+	return b.String()
+}
